@@ -38,7 +38,8 @@ def main():
             ctx.violation({"kind": "forbidden-construct", "where": bad,
                            "broken": "grep gate: Admitted/Axiom/... present in the Coq development"},
                           found_input=False)
-        ok, out = C.coq_static_build(getattr(mod, "STATIC", None))
+        C.STATIC_TARGETS = getattr(mod, "STATIC", None)
+        ok, out = C.coq_static_build(C.STATIC_TARGETS)
         if not ok:
             ctx.notes.append("static theory build failed")
             ctx.violation({"kind": "static-build-failed", "output": out[-3000:],
